@@ -1252,6 +1252,9 @@ class Interp:
                ast.FloorDiv: operator.floordiv, ast.Pow: operator.pow, ast.MatMult: operator.matmul}.get(op)
         if nat is None:
             raise Unsupported(f"operator {op.__name__}")
+        if (is_sym(a) and isinstance(b, (list, tuple)) or is_sym(b) and isinstance(a, (list, tuple))) and op in (ast.Sub, ast.Div, ast.FloorDiv, ast.Pow, ast.Add):
+            # a Python list / tuple and a number: no such operator whatever the number is (a program type error, not an engine limit)
+            raise PyRaise("TypeError", f"unsupported operand type(s) for {op.__name__}: '{type(a).__name__}' and '{type(b).__name__}'")
         if is_sym(a) or is_sym(b):
             # e.g. [x] * symbolic_int
             ca, cb = concrete_value(a) if is_sym(a) else a, concrete_value(b) if is_sym(b) else b
